@@ -552,6 +552,31 @@ func c14Faulted(env *fw.Env, idx int) fw.Result {
 	n := base.be.calls
 	kinds := append([]string{}, base.be.kinds...)
 	res.Obs = map[string]int64{}
+	// a failure that no callback reports: the fetch succeeds, but what was
+	// fetched is refused when it is installed (a link leaving the package, a
+	// rule file that is a directory)
+	for pi := range w.Remotes {
+		for _, bad := range [][]gen.NodeSpec{
+			{{Path: "esc", Kind: "link", Target: "../../outside"}},
+			{{Path: ".terraformignore", Kind: "dir", Mode: 0755}},
+		} {
+			w2 := w
+			w2.Remotes = append([]gen.RemotePkg{}, w.Remotes...)
+			w2.Remotes[pi].Extras = append(append([]gen.NodeSpec{}, w.Remotes[pi].Extras...), bad...)
+			br := runBuild(&w2, dir, buildOpts{Limit: 4*n + 20})
+			if br.NewErr != nil || br.be.aborted {
+				continue
+			}
+			res.Evals++
+			res.NonTrivial = true
+			res.Obs["builds_with_refused_package_content"]++
+			if _, msg, finding := c14Brackets(br.be.log, false); msg != "" {
+				res.Verdict, res.Finding = fw.Violated, finding+"-under-fault"
+				res.Msg = fmt.Sprintf("package %d is fetched but refused when installed (%s): %s", pi, bad[0].Path, msg)
+				return res
+			}
+		}
+	}
 	for i := 1; i <= n; i++ {
 		br := runBuild(&w, dir, buildOpts{Faults: []fault{{At: i, Mode: "error"}}, Limit: 4*n + 20})
 		if br.NewErr != nil || len(br.be.faulted) == 0 {
